@@ -2,7 +2,7 @@
 from vf.driver import contract_units
 
 LEVEL = "proof"
-MODULES = ["contracts.c_access", "contracts.c_engine", "contracts.c_attributes"]
+MODULES = ["contracts.c_access", "contracts.c_engine", "contracts.c_request", "contracts.c_attributes"]
 EXPLANATION = ("The decision functions and the two choke points of the engine are proved against a "
                "spec of the grant relation written from the property text, for every policy store "
                "(uninterpreted dictionaries), identity, owner, object type and operation.")
